@@ -164,8 +164,14 @@ def gen_stencil_cases(ctx, out):
         out.append(sten_case("s%d" % k, (P + 1,), [Fraction(1), Fraction(2), Fraction(3)], P)); k += 1
         out.append(sten_case("s%d" % k, (4, 1), [Fraction(1)] * 9, P)); k += 1
     out.append(dict(cid="lap27", kind="maker", P=1, line="lap27 laplace27 1"))
-    for n, (eps, c, s) in enumerate([(Fraction(1), 1, 0), (Fraction(1, 2), 1, 0), (Fraction(1, 1000), 0, 1), (Fraction(3), -1, 0)]):
-        out.append(dict(cid="dif%d" % n, kind="maker", P=1, line="dif%d diffusion 1 %s %d %d" % (n, tok(eps), c, s)))
+    # rotation angles in all four quadrants with rational cosine and sine (Pythagorean triples), so that the model is exact and the
+    # library (which gets atan2(s, c)) agrees up to rounding; eps != 1 makes the mixed term visible
+    F_ = Fraction
+    angles = [(F_(1), F_(0)), (F_(0), F_(1)), (F_(-1), F_(0)), (F_(0), F_(-1)), (F_(3, 5), F_(4, 5)), (F_(3, 5), F_(-4, 5)), (F_(-4, 5), F_(3, 5)),
+              (F_(-4, 5), F_(-3, 5)), (F_(5, 13), F_(-12, 13)), (F_(-12, 13), F_(-5, 13)), (F_(12, 13), F_(5, 13)), (F_(8, 17), F_(-15, 17))]
+    for n, (c, s) in enumerate(angles):
+        for m, eps in enumerate([Fraction(1), Fraction(1, 2), Fraction(1, 1000), Fraction(3)] if n < 4 else [rng.choice([Fraction(1, 1000), Fraction(1, 10), Fraction(1, 2), Fraction(3), Fraction(100)])]):
+            out.append(dict(cid="dif%d_%d" % (n, m), kind="maker", P=1, line="dif%d_%d diffusion 1 %s %s %s" % (n, m, tok(eps), tok(c), tok(s))))
 
 def judge_stencil(ctx, c, impl, model):
     cid = c["cid"]; ctx.evaluations += 1
@@ -234,6 +240,19 @@ def judge_maker(ctx, c, impl, model):
     # O: the stencils the library builds are centrally symmetric (what stencil_grid relies on)
     if not all(nums.close(vals[t], vals[n - 1 - t]) for t in range(n)):
         ctx.signal("O", "maker:not_symmetric", "stencil maker returned a non-symmetric stencil", case=c["line"])
+    t = c["line"].split()
+    if t[1] == "diffusion" and n == 9:
+        # O: the stencil is the Q1 finite-element stencil of -div (Q A Q^T) grad, Q the rotation by theta, A = diag(1, eps):
+        # D = Q A Q^T = [[d11, d12], [d12, d22]], stencil = d11 Kxx + d22 Kyy + d12 Kxy with the Q1 element stencils
+        eps, cth, sth = (nums.parse_num(x) for x in t[3:6])
+        d11 = cth * cth + eps * sth * sth; d22 = sth * sth + eps * cth * cth; d12 = (1 - eps) * cth * sth
+        kxx = [-1, -4, -1, 2, 8, 2, -1, -4, -1]; kyy = [-1, 2, -1, -4, 8, -4, -1, 2, -1]; kxy = [-3, 0, 3, 0, 0, 0, 3, 0, -3]
+        want = [(d11 * kxx[q] + d22 * kyy[q] + d12 * kxy[q]) / 6 for q in range(9)]
+        scale = max(abs(float(w)) for w in want) or 1.0
+        bad = [(q, float(vals[q]), float(want[q])) for q in range(9) if abs(float(vals[q]) - float(want[q])) > 1e-12 * scale]
+        if bad:
+            ctx.signal("O", "maker:diffusion", "diffusion_stencil_2d(eps=%s, theta=atan2(%s, %s)) is not the Q1 stencil of -div Q A Q^T grad: "
+                       "(position, library, required) %s" % (t[3], t[5], t[4], bad[:3]), case=c["line"])
     ctx.compared += 1
     if b is None or not fw.toks_equal(a, b):
         ctx.signal("K", "maker", "model and library differ: %s vs %s" % (a, b), case=c["line"])
